@@ -986,7 +986,12 @@ class BaseImage(metaclass=ImageMeta):
 
         if not method:
             if cls._render_methods:
-                cls._render_method = cls._default_render_method
+                if "_default_render_method" in vars(cls):
+                    # The class defines the default; nothing further up to follow.
+                    cls._render_method = cls._default_render_method
+                elif "_render_method" in vars(cls):
+                    # Remove the override, so that the class follows its parent again.
+                    del cls._render_method
         else:
             cls._render_method = method
 
